@@ -1,5 +1,5 @@
 import sys, io, contextlib, re, z3
-sys.path.insert(0, "/tmp/probe/regmod")
+import os; sys.path.insert(0, os.path.join(os.path.dirname(os.path.abspath(__file__)), "regmod"))
 import symx_reg, symx
 from symx import SymInt, SymBool, sym_int, sym_bool, choose, explore
 # token formatting
